@@ -51,3 +51,14 @@ Fixpoint g_culled_steps (fuel : nat) (st : list (Z * list (Z * bool))) : bool :=
           c04_cull_test after before || g_culled_steps f next
       end
   end.
+
+(* ---------- the remaining accessors of DaskLazyIndexer ---------- *)
+(* __len__ : return self.shape[0]    (IndexError on a 0-d data set; None = it raises) *)
+Definition d_len (i : d_ind) : option Z :=
+  match d_adv i with Some (n :: _, _) => Some n | _ => None end.
+(* __iter__ : for index in range(len(self)): yield self[index] *)
+Definition d_iter (i : d_ind) : option (list (option d_arr)) :=
+  match d_len i with
+  | Some n => Some (map (fun k => d_index i [DInt (Z.of_nat k)]) (seq 0 (Z.to_nat n)))
+  | None => None
+  end.
